@@ -2,7 +2,7 @@
    a violating message is rejected through the typed error naming a violated element/attribute.
    (The statements that every decode PATH runs this validation are in the C03 path theorems over the
    tree-level model, Prop_C03 section "paths", once Response.v is part of the build.) *)
-From V Require Import Base Time Types Profile P_Profile P_C03.
+From V Require Import Base Time Xml Ns Types Profile Decode Response P_Profile P_C03 P_Ns P_Response.
 
 (* complete characterisation of acceptance by the declarative profile predicate *)
 Theorem C03_validate_accept_iff : forall cfg now r,
@@ -41,3 +41,22 @@ Theorem C03_first_failing_assertion_decides : forall cfg now r e,
   exists pre x post, r_assertions r = pre ++ x :: post /\ Forall (AssertionOK cfg now) pre /\ ViolatesA cfg now x e.
 Proof. exact first_failing_assertion_decides. Qed.
 Print Assumptions C03_first_failing_assertion_decides.
+
+(* ---- paths: every decode path of ValidateEncodedResponse (skip, signed Response, unsigned Response with signed
+   assertions) ends with this validation, for every tree and every oracle behaviour ---- *)
+Theorem C03_every_decode_path_validates : forall dsig decrypt cfg now root r,
+  validate_response_tree dsig decrypt cfg now root = Ok r -> validate cfg now r = Ok tt.
+Proof. exact every_path_validates. Qed.
+Print Assumptions C03_every_decode_path_validates.
+
+Theorem C03_accepted_response_satisfies_profile : forall dsig decrypt cfg now root r,
+  validate_response_tree dsig decrypt cfg now root = Ok r -> ProfileOK cfg now r.
+Proof. intros dsig decrypt cfg now root r H. apply validate_ok_iff. eapply every_path_validates; exact H. Qed.
+Print Assumptions C03_accepted_response_satisfies_profile.
+
+(* RetrieveAssertionInfo reports a failed validation through ErrVerification wrapping the typed cause *)
+Theorem C03_retrieve_info_wraps_validation_error : forall dsig decrypt cfg now root e,
+  validate_response_tree dsig decrypt cfg now root = Err e ->
+  retrieve_assertion_info_tree dsig decrypt cfg now root = Err (EVerification e).
+Proof. exact retrieve_info_wraps_validation_error. Qed.
+Print Assumptions C03_retrieve_info_wraps_validation_error.
